@@ -211,6 +211,8 @@ class Emit:
         if k == "dyn":
             o = self.path(e["o"]) if e["o"] else self.path("")
             return getattr(o, e["b"])()
+        if k == "dyni":
+            return getattr(self.path(e["l"])[self.expr(e["i"])], e["b"])()
         if k == "size":
             return self.path(e["l"]).size
         if k == "sum":
